@@ -345,8 +345,15 @@ impl Iterator for Lexer {
                 let end = self.get_pos();
                 self.consume_char();
 
+                // A dot that starts no directive name is not a token. (It
+                // used to be skipped, silently and recursively.)
                 if dir_str == "." {
-                    return self.next();
+                    return Some(Err(LexError::UnexpectedToken(Box::new(Token::new(
+                        TokenType::Symbol(dir_str.clone()),
+                        dir_str,
+                        Range::new(start, end),
+                        self.source_id,
+                    )))));
                 }
 
                 Some(Token::new(
